@@ -41,7 +41,7 @@ type c06Case struct {
 func c06Params() GenParams {
 	return GenParams{MinOps: 8, MaxOps: 45, WKV: 0, WCreate: 2, WDrop: 1, WAdd: 12, WBatch: 5, WImport: 1, WDel: 10, WMeta: 4, WReinforce: 1, WEvolve: 1,
 		WLink: 8, WUnlink: 3, WConfig: 0, WAutoLinks: 1, WSnapshot: 1, WRewrite: 1, WCompress: 2, WMaint: 6, WFlush: 0, WRestart: 2,
-		InvalidPct: 4, AllowInt8: true, AllowMemory: true, AllowAutoLink: true, AllowText: true, SmallEfC: true, BigBatch: true}
+		InvalidPct: 4, AllowInt8: true, AllowMemory: true, AllowAutoLink: true, AllowText: true, SmallEfC: true, BigBatch: true, NullMeta: true}
 }
 
 // value pools of the shared universe (ops_test.go genMeta)
